@@ -67,7 +67,7 @@ Definition b (s : string) : bytes := bytes_of_string s.
 Definition w_tree0 : fmap := [(b "a", (KReg, b "A")); (b "n", (KReg, b "N"))].
 Definition w_tree1 : fmap := [(b "a", (KReg, b "A"))].
 Definition w_state : state :=
-  mkState [w_tree0; w_tree1] [(master, 0%Z)] (HSym master) w_tree1 w_tree0.
+  mkState [w_tree0; w_tree1] [(master, 0%Z)] (HSym master) w_tree1 w_tree0 [].
 
 Lemma hard_deletes_untracked :
   exists s', reset 1 Hard None w_state = (None, s') /\
@@ -82,7 +82,7 @@ Proof. eexists. vm_compute. repeat split. Qed.
    untracked file; git reset --hard deletes it *)
 Definition w_state2 : state :=
   mkState [w_tree1; [(b "a", (KReg, b "A2"))]] [(master, 0%Z)] (HSym master)
-          [(b "a", (KReg, b "A")); (b "s", (KReg, b "S"))] [(b "a", (KReg, b "A")); (b "s", (KReg, b "S"))].
+          [(b "a", (KReg, b "A")); (b "s", (KReg, b "S"))] [(b "a", (KReg, b "A")); (b "s", (KReg, b "S"))] [].
 
 Lemma hard_keeps_staged_new :
   exists s', reset 1 Hard None w_state2 = (None, s') /\
